@@ -8,6 +8,7 @@ META = dict(
          "pattern such as Tasker2, Tasker3, Tasker3a) or an automatic name, Clear of each root registry and ClearRegistries, House.assignRegistries of each house, "
          "Framer.assignFrameRegistry, Framer.clone, Framer.prune.  ioflo.base.registering.random is replaced by a harness object, so every answer of the automatic-name collision loop "
          "(letters a/b for up to three draws) is enumerated.  After every operation all registries (class-level, per house, per framer) are compared with a reference "
+         "Saturated-suffix family: <Class>1 and <Class>1a .. <Class>1z taken explicitly (Tasker, Log), counter reset by re-entering the house, two automatic creations: names stay fresh.  "
          "model of namespaces: explicit duplicates rejected with nothing changed, automatic names fresh, instances land in the namespace that is current and nowhere else.",
     note="Clear() is read as 'start a fresh class-level namespace' (it rebinds, a house keeps its own registry). A second family builds generated FloScript programs "
          "(framers x frames x clones x logs x houses) through the real Builder and checks that every reachable instance is the one registered under its name.",
@@ -920,6 +921,14 @@ def run():
     if twin is not None:
         for op in twin_ops(twin):
             items += [("twin", f) for f in expand_random(TWIN_PRELOAD, op, counters)]
+    # saturated-suffix family: the automatic name's base and all of its 26 one-letter suffixes are taken (explicitly), the
+    # counter is reset by re-entering the house: the automatic name must still be fresh (every step compared with the model)
+    import string
+    for cls in ("Tasker", "Log"):
+        sat = [("new", "House", "h", None, ()), ("assign", 0), ("new", cls, cls + "1", None, ())]
+        sat += [("new", cls, cls + "1" + ch, None, ()) for ch in string.ascii_lowercase]
+        sat += [("assign", 0), ("new", cls, None, None, ()), ("assign", 0), ("new", cls, None, None, ())]
+        preload_ok("saturated-" + cls, sat)
     parts = [preload_part] + core.pmap(work, items, procs=min(core.NPROC, 8) if QUICK else None)
     best = {}
     for si, p in enumerate(parts):
